@@ -503,6 +503,30 @@ func Schemas07(thorough bool) *Set {
 	// $id beside $ref is ignored: the ref still resolves against the outer base
 	s.Add("Psib", `{"definitions":{"d":{"type":"integer"}},"properties":{"a":{"$id":"http://other/x.json","$ref":"#/definitions/d"}}}`)
 	s.Add("Psib", `{"definitions":{"d":{"type":"integer"},"e":{"$id":"#k","$ref":"#/definitions/d"}},"allOf":[{"$ref":"#/definitions/e"}]}`)
+	// keywords of later drafts inside a draft-07 document are unknown keywords: no effect
+	later := []KV{{"minContains", `0`}, {"minContains", `2`}, {"maxContains", `0`}, {"maxContains", `1`}, {"unevaluatedItems", `false`}, {"unevaluatedItems", `{"type":"string"}`}, {"unevaluatedProperties", `false`},
+		{"unevaluatedProperties", `{"type":"integer"}`}, {"prefixItems", `[{"type":"string"}]`}, {"dependentRequired", `{"a":["b"]}`}, {"dependentSchemas", `{"a":false}`}}
+	carriers := [][]KV{nil, {{"contains", `{"type":"integer"}`}}, {{"contains", `true`}}, {{"contains", `false`}}, {{"items", `[{"type":"integer"}]`}}, {{"items", `{"type":"integer"}`}}, {{"items", `[true]`}, {"additionalItems", `false`}},
+		{{"properties", `{"a":true}`}}, {{"allOf", `[{"properties":{"a":true}},{"items":[true]}]`}}, {{"additionalProperties", `{"type":"string"}`}}, {{"dependencies", `{"a":["c"]}`}}}
+	for _, l := range later {
+		for _, c := range carriers {
+			s.Add("Plater", Obj(append(append([]KV(nil), c...), l)...))
+		}
+	}
+	for _, c := range []string{`{"type":"integer"}`, `true`, `{"const":1}`} {
+		for _, mm := range [][2]string{{"0", "0"}, {"0", "1"}, {"2", "3"}, {"1", "1"}} {
+			s.Add("Plater", Obj(KV{"contains", c}, KV{"minContains", mm[0]}, KV{"maxContains", mm[1]}))
+		}
+	}
+	// a fragment-only $id inside an embedded resource is an anchor of that resource
+	s.Add("Pref", `{"definitions":{"e":{"$id":"http://h/e.json","definitions":{"k":{"$id":"#k","type":"integer"}}}},"allOf":[{"$ref":"http://h/e.json#k"}]}`)
+	s.Add("Pref", `{"definitions":{"e":{"$id":"http://h/e.json","definitions":{"k":{"$id":"#k","type":"integer"}},"allOf":[{"$ref":"#k"}]},"k":{"$id":"#k","type":"string"}},"properties":{"a":{"$ref":"http://h/e.json"},"b":{"$ref":"#k"}}}`)
+	// $ref with siblings under patternProperties / then / else
+	for _, a := range sibs {
+		inner := Obj(KV{"$ref", `"#/definitions/d"`}, a)
+		s.Add("Psib", `{"definitions":{"d":{"type":["integer","object","string"]}},"patternProperties":{"^a":`+inner+`}}`)
+		s.Add("Psib", `{"definitions":{"d":{"type":["integer","object","string"]}},"if":{"type":"object"},"then":`+inner+`,"else":`+inner+`}`)
+	}
 	// recursion
 	for _, a := range filter(atoms, "type", "required", "minimum", "maxProperties", "minItems") {
 		s.Add("Prec", Obj(KV{"properties", `{"a":{"$ref":"#"}}`}, a))
